@@ -183,6 +183,23 @@ def gen_history(rng: random.Random, lf: int, n_ops: int, n_tok: int, invalid_rat
                         ops.append(('ins_after', live[i], [live[i + 1]]))
                 else:
                     ops.append(('splice', [live[j]], live[i], live[j - 1]))
+            elif c < 0.91 and free:
+                # the same token listed twice (a free one, or one of the removed range): must be refused
+                if live and rng.random() < 0.5:
+                    a = rng.randrange(len(live))
+                    ops.append(('splice', [live[a], live[a]], live[a], live[a]))
+                else:
+                    ref_ = rng.choice(live) if live and rng.random() < 0.7 else None
+                    ops.append((rng.choice(['ins_after', 'ins_before']), ref_, [free[-1], free[-1]]))
+            elif c < 0.96 and len(live) >= 3:
+                # reversed range: del_end at least two tokens before ref (the case "del_end is the token just
+                # before ref" is left out: the code's answer to it depends on the block layout, see C07.v)
+                i = rng.randrange(2, len(live))
+                j = rng.randrange(0, i - 1)
+                if rng.random() < 0.5:
+                    ops.append(('remove', live[i], live[j]))
+                else:
+                    ops.append(('splice', [free[-1]] if free and rng.random() < 0.5 else [], live[i], live[j]))
             elif free:
                 ops.append(('remove', free[-1], None))
             continue
@@ -223,10 +240,13 @@ def gen_history(rng: random.Random, lf: int, n_ops: int, n_tok: int, invalid_rat
             free[0:0] = removed
         elif r < 0.78 and free:
             a = rng.randrange(len(live))
-            nt = free.pop()
-            ops.append(('replace', live[a], nt))
-            free.insert(0, live[a])
-            live[a] = nt
+            if rng.random() < 0.15:
+                ops.append(('replace', live[a], live[a]))     # a token replaced by itself: accepted, no change
+            else:
+                nt = free.pop()
+                ops.append(('replace', live[a], nt))
+                free.insert(0, live[a])
+                live[a] = nt
         elif r < 0.82:
             ref = rng.choice(live)
             ops.append(('splice', take(lf), ref, None))
@@ -323,7 +343,7 @@ def run_history(lf: int, texts: list[str], ops: list) -> tuple[list[tuple[Any, d
             r_, new = op[1], op[2]
             if r_ is not None and r_ not in ref:
                 exp_err = True
-            elif any(t in ref for t in new):
+            elif any(t in ref for t in new) or len(set(new)) != len(new):
                 exp_err = True
             else:
                 i = 0 if r_ is None else ref.index(r_) + (1 if k == 'ins_after' else 0)
@@ -335,7 +355,9 @@ def run_history(lf: int, texts: list[str], ops: list) -> tuple[list[tuple[Any, d
             else:
                 i = 0 if a is None else ref.index(a)
                 j = i if b is None else ref.index(b) + 1
-                if any(t in ref and not (i <= ref.index(t) < j) for t in new):
+                if j < i or len(set(new)) != len(new):
+                    exp_err = True                      # reversed range / a token listed twice
+                elif any(t in ref and not (i <= ref.index(t) < j) for t in new):
                     exp_err = True
                 else:
                     ref[i:j] = new
@@ -346,9 +368,13 @@ def run_history(lf: int, texts: list[str], ops: list) -> tuple[list[tuple[Any, d
             else:
                 i = ref.index(a)
                 j = ref.index(b if b is not None else a) + 1
-                del ref[i:j]
+                if j < i:
+                    exp_err = True                      # reversed range
+                else:
+                    del ref[i:j]
         elif k == 'replace':
-            if op[1] not in ref or op[2] in ref:
+            # splice([r], t, t): r must be free or t itself (C07_replace_refines allows r = t: no change)
+            if op[1] not in ref or (op[2] in ref and op[2] != op[1]):
                 exp_err = True
             else:
                 ref[ref.index(op[1])] = op[2]
@@ -492,4 +518,43 @@ def run_history(lf: int, texts: list[str], ops: list) -> tuple[list[tuple[Any, d
                                       f'{"accepted" if not refused else "refused but changed a store"}',
                               'where': {'lf': lf, 'texts': texts, 'ops': ops, 'step': len(ops)}})
                 break
+        # ---- ... nor is a REFERENCE token of another store: every mutator, observer and the store-level update
+        #      raise ValueError and neither store changes (C07_bad_reference_refused / C07_observers)
+        if not fails:
+            spare = ts_lib.Token('zz')
+            a_next = impl.toks[ref[(k + 1) % len(ref)]]
+            calls = [
+                ('insert_after(foreign, [free])', lambda: impl.store.insert_after(b_tok, [spare])),
+                ('insert_before(foreign, [free])', lambda: impl.store.insert_before(b_tok, [spare])),
+                ('splice([free], foreign, None)', lambda: impl.store.splice([spare], b_tok, None)),
+                ('splice([], own, foreign)', lambda: impl.store.splice([], a_tok, b_tok)),
+                ('splice([], foreign, own)', lambda: impl.store.splice([], b_tok, a_tok)),
+                ('remove(foreign)', lambda: impl.store.remove(b_tok)),
+                ('remove(own, foreign)', lambda: impl.store.remove(a_tok, b_tok)),
+                ('replace(foreign, free)', lambda: impl.store.replace(b_tok, spare)),
+                ('get_index(foreign)', lambda: impl.store.get_index(b_tok)),
+                ('get_position(foreign)', lambda: impl.store.get_position(b_tok)),
+                ('get_prev(foreign)', lambda: impl.store.get_prev(b_tok)),
+                ('get_next(foreign)', lambda: impl.store.get_next(b_tok)),
+                ('iter(foreign, own)', lambda: list(impl.store.iter(b_tok, a_next))),
+                ('iter(own, foreign)', lambda: list(impl.store.iter(a_tok, b_tok))),
+                ('update(foreign, ...)', lambda: impl.store.update(b_tok, 'q', ts_lib._token_size('q'))),
+            ]
+            for how, call in calls:
+                try:
+                    call()
+                    refused = False
+                except ValueError:
+                    refused = True
+                after_a, after_b = list(impl.store), list(other)
+                same = (len(after_a) == len(before_a) and all(x is y for x, y in zip(after_a, before_a))
+                        and len(after_b) == len(before_b) and all(x is y for x, y in zip(after_b, before_b))
+                        and len(impl.store) == len(before_a) and len(other) == len(before_b)
+                        and spare.store_handle is None)
+                if not refused or not same:
+                    fails.append({'sig': 'C07:foreign-store-reference-accepted',
+                                  'what': f'{how} with the token at position #{k} of another store was '
+                                          f'{"accepted" if not refused else "refused but changed a store"}',
+                                  'where': {'lf': lf, 'texts': texts, 'ops': ops, 'step': len(ops)}})
+                    break
     return steps, fails
